@@ -388,7 +388,10 @@ def run(ctx):
     ctx.parallel(_worker, [400] * 16 if quick else [12000] * 16)
     pairs = all_pairs()
     if quick:
-        pairs = [p for i, p in enumerate(pairs) if i % 12 == ctx.seed % 12]
+        # a rotating twelfth - plus, always, the commands whose response types have decoding rules of their own
+        always = {"getKey", "getKeyTableEntry", "getTokenData", "invalidCommand", "version", "getValue", "incomingMessageHandler",
+                  "messageSentHandler", "stackStatusHandler", "exportKey", "exportLinkKeyByIndex"}
+        pairs = [p for i, p in enumerate(pairs) if i % 12 == ctx.seed % 12 or p[1] in always]
     nj = 64
     ctx.parallel(_worker_trunc, [pairs[i::nj] for i in range(nj) if pairs[i::nj]])
     run_atheris(ctx, 6000 if quick else 150000, 2 if quick else 16)
